@@ -12,6 +12,7 @@ import Hy.Proofs.BbrFilter
 import Hy.Proofs.BbrSampler
 import Hy.Gen.C12Sites
 import Hy.Gen.TransRing
+import Hy.Gen.TransBbr
 set_option linter.unusedSimpArgs false
 namespace Hy.Props.C12
 open Hy Hy.Ring Hy.Pnq
@@ -509,5 +510,85 @@ theorem ring_back_translation_eq {α : Type} (r : RB α) (hwf : r.WF) (hc : r.ca
 example : Gen.TransRing.RingBuffer_Offset false 3 4 1 (-1) = .ok 2 := by decide
 example : Gen.TransRing.RingBuffer_Offset false 3 4 1 2 = .panic := by decide
 example : Gen.TransRing.RingBuffer_Back true 2 4 2 = .ok 1 := by decide
+
+/-! ### the integer-only helpers of the BBR sender as TRANSLATED from the current Go source
+
+`Hy.Gen.TransBbr.*` is regenerated on every run by `verifgen translate` from the text of
+`scaleByteWindowForDatagramSize`, `minCongestionWindowForMaxDatagramSize` (bbr_sender.go) and
+`BandwidthFromDelta` (bandwidth.go): int64 ↔ uint64 conversions, the uint64 product and division and
+the division-by-zero panic explicit; `minCongestionWindowPackets`, `BytesPerSecond`, `time.Second`
+resolved to their current values.  `bbr_bandwidthFromDelta_translation_eq` holds for ALL integers (the
+sampler's model wraps like the code); the `BbrCore` versions (naturals, no wrap) agree wherever
+nothing overflows — the stated ranges.  The rest of bbr_sender.go is float64 / table / struct code
+and stays outside the translator's subset. -/
+
+theorem bbr_minCwnd_translation_eq (n : Nat) (h : n < 2305843009213693952) :
+    Gen.TransBbr.minCongestionWindowForMaxDatagramSize n = ((Bbr.minPk * n : Nat) : Int) := by
+  have e : Bbr.minPk = 4 := by decide
+  unfold Gen.TransBbr.minCongestionWindowForMaxDatagramSize
+  rw [e]
+  simp (disch := omega) only [GoInt.i64_of_range]
+  go_ac_norm
+  omega
+
+/-- all-integer version: the sampler's model wraps exactly like the code -/
+theorem bbr_bandwidthFromDelta_translation_eq (bytes delta : Int) :
+    Gen.TransBbr.BandwidthFromDelta bytes delta
+      = (Sampler.bandwidthFromDelta bytes delta).bind (fun r => .ok (r : Int)) := by
+  unfold Gen.TransBbr.BandwidthFromDelta Sampler.bandwidthFromDelta
+  have hu : ∀ x : Int, ((Sampler.u64 x : Nat) : Int) = GoInt.u64 x := by
+    intro x; unfold Sampler.u64 GoInt.u64 Sampler.two64; omega
+  by_cases hd : Sampler.u64 delta = 0
+  · have : GoInt.u64 delta = 0 := by rw [← hu, hd]; rfl
+    simp [hd, this]
+  · have : ¬ GoInt.u64 delta = 0 := by rw [← hu]; omega
+    simp only [hd, this, ne_eq, not_false_eq_true, not_true_eq_false, ↓reduceIte, Res.bind_ok, Res.ok.injEq, hu]
+    simp only [Int.natCast_ediv, hu] <;> go_ac_rfl
+
+/-- the core model (naturals, no wrap) agrees wherever nothing overflows -/
+theorem bbr_bandwidthFromDelta_core_translation_eq (bytes delta : Nat)
+    (hb : bytes * 1000000000 < 18446744073709551616) (hd : delta < 9223372036854775808)
+    (hr : bytes * 1000000000 / delta * 8 < 18446744073709551616) :
+    Gen.TransBbr.BandwidthFromDelta bytes delta
+      = (Bbr.bandwidthFromDelta bytes delta).bind (fun r => .ok (r : Int)) := by
+  unfold Gen.TransBbr.BandwidthFromDelta Bbr.bandwidthFromDelta
+  have hr' : 1000000000 * bytes / delta * 8 < 18446744073709551616 := by rw [Nat.mul_comm 1000000000 bytes]; exact hr
+  have hq : bytes * 1000000000 / delta < 18446744073709551616 := by omega
+  have hq' : 1000000000 * bytes / delta < 18446744073709551616 := by omega
+  have c1 : (1000000000 : Int) = ((1000000000 : Nat) : Int) := rfl
+  have c8 : (8 : Int) = ((8 : Nat) : Int) := rfl
+  by_cases hz : delta = 0
+  · subst hz; simp [GoInt.u64]
+  · have hz' : ¬ (GoInt.u64 (delta : Int) = 0) := by rw [GoInt.u64_natCast (by omega)]; omega
+    simp only [hz, hz', ne_eq, not_false_eq_true, not_true_eq_false, ↓reduceIte, Res.bind_ok, Res.ok.injEq]
+    rw [c1, c8]
+    simp (disch := omega) only [← Int.natCast_mul, ← Int.natCast_ediv, GoInt.u64_natCast]
+    try simp only [Nat.mul_comm 1000000000 bytes, Nat.mul_comm 8 _]
+
+theorem bbr_scaleWnd_translation_eq (w old new : Nat)
+    (hw : w < 9223372036854775808) (ho : old < 9223372036854775808) (hn : new < 9223372036854775808)
+    (hp : w * new < 9223372036854775808) :
+    Gen.TransBbr.scaleByteWindowForDatagramSize w old new
+      = (Bbr.scaleWnd w old new).bind (fun r => .ok (r : Int)) := by
+  unfold Gen.TransBbr.scaleByteWindowForDatagramSize Bbr.scaleWnd
+  have hp' : new * w < 9223372036854775808 := by rw [Nat.mul_comm]; exact hp
+  have hq : w * new / old < 9223372036854775808 := Nat.lt_of_le_of_lt (Nat.div_le_self _ _) hp
+  have hq' : new * w / old < 9223372036854775808 := Nat.lt_of_le_of_lt (Nat.div_le_self _ _) hp'
+  have eo : ((old : Int) = new ↔ old = new) ∧ ((new : Int) = old ↔ old = new) := by omega
+  by_cases he : old = new
+  · simp [he]
+  · by_cases hz : old = 0
+    · subst hz
+      have hn0 : ¬ (0 = new) := he
+      simp [hn0, eo, he, GoInt.u64]
+      all_goals omega
+    · have hz' : ¬ (GoInt.u64 (old : Int) = 0) := by rw [GoInt.u64_natCast (by omega)]; omega
+      simp only [he, eo, hz, hz', ne_eq, not_false_eq_true, not_true_eq_false, ↓reduceIte, Res.bind_ok, Res.ok.injEq]
+      simp (disch := omega) only [← Int.natCast_mul, ← Int.natCast_ediv, GoInt.u64_natCast, GoInt.i64_natCast]
+      try simp only [Nat.mul_comm new w]
+
+example : Gen.TransBbr.scaleByteWindowForDatagramSize 12800 1280 1452 = .ok 14520 := by decide
+example : Gen.TransBbr.scaleByteWindowForDatagramSize 12800 0 1452 = .panic := by decide
+example : Gen.TransBbr.BandwidthFromDelta 1280 1000000 = .ok 10240000 := by decide
 
 end Hy.Props.C12
